@@ -299,6 +299,9 @@ def _prod_rat(xs):
 
 
 _INTERP = None
+# jax.numpy semantics for out-of-bounds integer *reads* (clamped, no error); off by default so that a rule
+# has to opt in where the analysed code relies on it (isotropic (1,...) material arrays indexed by axis)
+JAX_CLAMP = False
 
 
 def bind_interp(interp):
@@ -478,7 +481,9 @@ def getitem(a: NdArr, idx) -> NdArr:
             i = _as_int(it_)
             if isinstance(i, int):
                 if not -size <= i < size:
-                    raise Raised("IndexError", f"index {i} out of bounds for axis {pos} with size {size}")
+                    if not JAX_CLAMP:
+                        raise Raised("IndexError", f"index {i} out of bounds for axis {pos} with size {size}")
+                    i = size - 1 if i >= size else 0  # jax.numpy clamps static out-of-bounds reads
                 sel.append([i % size])
             elif isinstance(i, slice):
                 st = tuple(_as_int(x) for x in (i.start, i.stop, i.step))
@@ -1358,8 +1363,25 @@ def _x_einsum(args, kw):
     return NdArr(tuple(sizes[c] for c in out_exp), data, sp)
 
 
+def _x_flip(args, kw):
+    a = lift(args[0])
+    axis = kw.get("axis", args[1] if len(args) > 1 else None)
+    if axis is None:
+        axes = list(range(a.ndim))
+    else:
+        axes = [axis] if not isinstance(axis, (tuple, list)) else list(axis)
+    idx = [slice(None)] * a.ndim
+    for x in axes:
+        x = _as_int(x)
+        if not isinstance(x, int) or not -a.ndim <= x < a.ndim:
+            raise Raised("ValueError", f"flip axis {x!r} out of range for ndim {a.ndim}")
+        idx[x % a.ndim] = slice(None, None, -1)
+    return getitem(a, tuple(idx))
+
+
 ARR_EXT.update(
     {
+        "np.flip": _x_flip,
         "np.pad": _x_pad,
         "np.roll": _x_roll,
         "np.eye": _x_eye,
